@@ -139,3 +139,23 @@ Definition to_pnode (style_ids : list str) (n : cnode) : pnode :=
   end.
 Definition caption_payload (legacy : bool) (style_ids : list str) (nodes : list cnode) : str * bool :=
   recreate_text legacy false (map (to_pnode style_ids) nodes).
+
+(* ---- SinglePositioningDFXPWriter (wave 5) ------------------------------------------------------------------------ *)
+(* _create_single_positioning_caption_set (after merge_concurrent_captions, which the models do not see): the layout
+   of the set, of every language, caption and node becomes the ONE given positioning; `text-align` is removed from the
+   styles of the set. The result goes through DFXPWriter.write, i.e. through `summarize`. *)
+Definition strip_text_align (content : list (str * str)) : list (str * str) :=
+  filter (fun kv => negb (str_eqb (fst kv) (lit "text-align"))) content.
+Definition single_positioning (p : lay) (d : dset) : dset :=
+  mkDset p (map (fun st => (fst st, strip_text_align (snd st))) (ds_styles d))
+         (map (fun l => mkDlang p (map (fun c => mkDcap p (dc_style c)
+                                           (map (fun n => mkDnode (mkRnode p (rn_span (dn_r n))) (dn_content n)) (dc_nodes c)))
+                                       (dl_caps l))) (ds_langs d)).
+(* the only region such a document can refer to: the default one, unless the positioning is a layout of its own that
+   creates a region (then "r0") *)
+Definition single_region (p : lay) : Z :=
+  match p with Some (c, true, _) => if c =? 0 then default_id else 0 | _ => default_id end.
+(* domain, on the INPUT: style ids distinct, and no written style is called like that one region *)
+Definition dom_single (p : lay) (d : dset) : bool :=
+  nodup_str (map fst (ds_styles d)) &&
+  forallb (fun w => negb (str_eqb w (region_id_str (single_region p)))) (s_style_ids (summarize (single_positioning p d))).
